@@ -444,8 +444,8 @@ func (b *builder) igamma(rng *Rng) {
 				an.Skip = "closed form overflows binary64 (overflow is the specified outcome; checked by the sweep)"
 			case an.tol < 1e-320:
 				an.Skip = "tolerance underflows"
-			case c.h%2 == 1 && (pq < 1e-7 || (b.quick && pq < 1e-4)):
-				an.Skip = "half-integer a with P or Q below 1e-7: the erf integral cannot be certified to the needed relative accuracy in bounded time"
+			case c.h%2 == 1 && (pq < 1e-6 || (b.quick && pq < 1e-4)):
+				an.Skip = "half-integer a with P or Q below 1e-6: the erf integral cannot be certified to the needed relative accuracy in bounded time"
 			case c.h%2 == 0 && (pq < 1e-100 || (pq < 1e-60 && c.h > 24)):
 				an.Skip = "tiny value: closed form 1 - Q needs several hundred bits of cancellation"
 			}
